@@ -140,6 +140,12 @@ fn gen_ws(rng: &mut Rng) -> Ws {
             let other_crate = (types[ti].krate + 1 + rng.below(k - 1)) % k;
             // a crate that itself refers to the name would be ambiguous Rust: leave those out
             let refers = types.iter().any(|t| t.krate == other_crate && t.refs.iter().any(|(x, _)| *x == ti));
+            // so would a file that reaches the name through a glob import of its crate and glob-imports the other crate too
+            let both_globbed = types.iter().any(|t| {
+                t.refs.iter().any(|(x, form)| *x == ti && form.contains("glob"))
+                    && types.iter().any(|u| u.krate == t.krate && u.file == t.file && u.refs.iter().any(|(y, f2)| types[*y].krate == other_crate && f2.contains("glob")))
+            });
+            let refers = refers || both_globbed;
             if let (false, Some(fi)) = (refers, files.iter().position(|(c, _)| *c == other_crate)) {
                 let mut d = types[ti].clone();
                 d.krate = other_crate;
